@@ -342,8 +342,11 @@ fn main() {
         20,
         |p, k| {
             let x = lex::case_of(SIGMA, lex_len, p, k);
-            println!("HANG engine=run input=\"{}\" hex={} (no progress for 20 s)", show(&x), hex(&x));
-            std::process::exit(3);
+            let x2 = x.clone();
+            if par::confirm_hang(move || { run_case(&x2, Wk::Heapless(8)); }, 30) {
+                println!("HANG engine=run input=\"{}\" hex={} (no progress for 20 s, and 30 s when re-run alone)", show(&x), hex(&x));
+                std::process::exit(3);
+            }
         },
     );
     let mut lex_execs = 0u64;
@@ -374,8 +377,11 @@ fn main() {
         20,
         |p, k| {
             let x = lex::case_of(SIGMA, lex2_len, p, k);
-            println!("HANG engine=run input=\"{}\" hex={} (no progress for 20 s)", show(&x), hex(&x));
-            std::process::exit(3);
+            let x2 = x.clone();
+            if par::confirm_hang(move || { run_case(&x2, Wk::Rec(usize::MAX)); }, 30) {
+                println!("HANG engine=run input=\"{}\" hex={} (no progress for 20 s, and 30 s when re-run alone)", show(&x), hex(&x));
+                std::process::exit(3);
+            }
         },
     );
     let mut lex2_execs = 0u64;
@@ -399,8 +405,11 @@ fn main() {
         20,
         |p, k| {
             let x = lex::case_of(lex::SIGMA_ALT, lex3_len, p, k);
-            println!("HANG engine=run input=\"{}\" hex={} (no progress for 20 s)", show(&x), hex(&x));
-            std::process::exit(3);
+            let x2 = x.clone();
+            if par::confirm_hang(move || { run_case(&x2, Wk::Heapless(8)); }, 30) {
+                println!("HANG engine=run input=\"{}\" hex={} (no progress for 20 s, and 30 s when re-run alone)", show(&x), hex(&x));
+                std::process::exit(3);
+            }
         },
     );
     let mut lex3_execs = 0u64;
@@ -520,8 +529,11 @@ fn main() {
     }
     let ws = lex::sweep(lex::SIGMA_LEXEME, lexeme_len, args.threads, args.seed, || LexiW { groups: Groups::new(), execs: 0 }, |_, _, _| {}, 20, |p, k| {
         let x = lex::case_of(lex::SIGMA_LEXEME, lexeme_len, p, k);
-        println!("HANG engine=run-lexi input=\"{}\" hex={} (no progress for 20 s)", show(&x), hex(&x));
-        std::process::exit(3);
+        let x2 = x.clone();
+        if par::confirm_hang(move || { let mut m = mc::ifaces::Lexi; let mut w = RecW::unbounded(); run_on(&mut m, &x2, &mut w, Pattern::NONE); }, 30) {
+            println!("HANG engine=run-lexi input=\"{}\" hex={} (no progress for 20 s, and 30 s when re-run alone)", show(&x), hex(&x));
+            std::process::exit(3);
+        }
     });
     let mut lexeme_execs = 0u64;
     for w in ws {
@@ -606,12 +618,22 @@ fn main() {
             },
             30,
             |p, _| {
-                println!(
-                    "HANG engine=process stream=\"{}\" hex={} (no progress for 30 s)",
-                    show(all[p].0),
-                    hex(all[p].0)
+                let (stream, ns) = (all[p].0.clone(), all[p].1.clone());
+                let confirmed = par::confirm_hang(
+                    move || {
+                        let mut w = EnvW { groups: Groups::new(), execs: 0, streams: 0, distinct: Distinct::default(), hook_calls: 0, log_overflow: 0 };
+                        env_stream(&mut w, &stream, &ns, full_comp, 2);
+                    },
+                    120,
                 );
-                std::process::exit(3);
+                if confirmed {
+                    println!(
+                        "HANG engine=process stream=\"{}\" hex={} (no progress for 30 s, and 120 s when re-run alone)",
+                        show(all[p].0),
+                        hex(all[p].0)
+                    );
+                    std::process::exit(3);
+                }
             },
         );
         for w in res {
